@@ -15,6 +15,7 @@ import (
 	"net/netip"
 	"os"
 	"path/filepath"
+	"reflect"
 	"strconv"
 	"strings"
 	"sync"
@@ -54,7 +55,7 @@ type MsgSpec struct {
 }
 
 type Step struct {
-	Op      string   `json:"op"` // msg | tun | shift | restart | load | burst | sleep | align
+	Op      string   `json:"op"` // msg | tun | shift | restart | load | burst | remove_race | sleep | align
 	Msg     *MsgSpec `json:"msg,omitempty"`
 	Peer    int      `json:"peer,omitempty"`
 	Inner   int      `json:"inner,omitempty"`
@@ -181,13 +182,14 @@ type runner struct {
 	nextEph  int
 	lhLast   map[int]string
 	lhCount  map[int]int
-	lastAcc  map[int]int64    // harness time of the last accepted initiation per initiator
+	lastAcc  map[int]int64 // harness time of the last accepted initiation per initiator
+	removed  map[int]bool
 	issued   map[int][]uint32 // every local index the device was seen to issue for a peer (initiation / response sender)
 }
 
 func newRunner() (*runner, error) {
 	r := &runner{peers: map[int]*cosim.RefPeer{}, privs: map[int]ref.Key{}, pubs: map[int]ref.Key{}, psks: map[int]ref.Key{},
-		addrID: map[string]int{}, built: map[int]*builtMsg{}, nextIdx: 0x1000, lhLast: map[int]string{}, lhCount: map[int]int{}, lastAcc: map[int]int64{}, issued: map[int][]uint32{}}
+		addrID: map[string]int{}, built: map[int]*builtMsg{}, nextIdx: 0x1000, lhLast: map[int]string{}, lhCount: map[int]int{}, lastAcc: map[int]int64{}, issued: map[int][]uint32{}, removed: map[int]bool{}}
 	a := cosim.NewPeer("A", "192.0.2.7:5555", "10.0.0.0/24")
 	b := cosim.NewPeer("B", "192.0.2.8:6666", "10.0.1.0/24")
 	b.Psk = ref.NewPrivate()
@@ -511,6 +513,12 @@ func (r *runner) snapshot() (string, string) {
 		p := r.peers[id]
 		st := r.w.Dev.VerifPeer(cosim.NoisePK(p.Pub))
 		ip := ipc[hex.EncodeToString(p.Pub[:])]
+		if ip == nil && !st.Found {
+			// not configured (any more): invisible through IpcGet and VerifPeer
+			snaps = append(snaps, fmt.Sprintf("[%d;0;0;0;0;0;0;0;0;0;0;0;0;0;0;0;0;0;0;0;0;0;0]", id))
+			hum = append(hum, fmt.Sprintf("%d:removed", id))
+			continue
+		}
 		if ip == nil {
 			ip = &ipcPeer{}
 		}
@@ -627,6 +635,41 @@ func runScenario(sc Scenario) (Case, error) {
 				time.Sleep(50 * time.Microsecond)
 				gate.Store(true)
 				done.Wait()
+			}
+		case "remove_race":
+			// RemovePeer while the peer's retransmit-handshake timer callback is already running,
+			// parked on the static identity as during a private_key update.  Needs the C06 hooks
+			// (looked up by name so that the harness also builds against a tree without them).
+			dv := reflect.ValueOf(r.w.Dev)
+			hold, fire := dv.MethodByName("VerifC06HoldIdentity"), dv.MethodByName("VerifC06FireRetransmit")
+			if !hold.IsValid() || !fire.IsValid() || r.removed[s.Peer] {
+				o.Skipped = true
+				c.Obs = append(c.Obs, o)
+				continue
+			}
+			body = fmt.Sprintf("(brr %d)", s.Peer)
+			pk := cosim.NoisePK(r.pubs[s.Peer])
+			r.removed[s.Peer] = true
+			act = func() {
+				release := hold.Call(nil)[0].Interface().(func())
+				fire.Call([]reflect.Value{reflect.ValueOf(pk)})
+				// the callback has passed the spacing test (lastSentHandshake = now) and waits for the identity
+				parked := false
+				for i := 0; i < 2000 && !parked; i++ {
+					parked = r.w.Dev.VerifC07Extra(pk).LastSentAgeNanos < int64(time.Second)
+					if !parked {
+						time.Sleep(50 * time.Microsecond)
+					}
+				}
+				if !parked {
+					c.Slow++ // the timer callback did not get going in 100 ms: the scenario is rerun
+				}
+				time.Sleep(300 * time.Microsecond)
+				done := make(chan struct{})
+				go func() { r.w.Dev.RemovePeer(pk); close(done) }()
+				time.Sleep(3 * time.Millisecond) // Stop is now waiting for the callback (or has already wiped, if the order is wrong)
+				release()
+				<-done
 			}
 		case "load":
 			body = fmt.Sprintf("(bl %v)", s.On)
@@ -1245,6 +1288,30 @@ func (g *gen) rapidFireOpt(restart bool) Scenario {
 	return Scenario{Gen: name, Steps: st}
 }
 
+// A peer is removed while one of its handshake timer callbacks is in flight; afterwards no
+// handshake of that peer is in progress: a response to the initiation that callback put on the
+// wire, and anything else from that peer, must change nothing.
+func (g *gen) removalRace() Scenario {
+	p := g.peer()
+	q := 3 - p
+	st := []Step{stepTun(p, 80)}
+	if g.r.Intn(2) == 0 {
+		st = append(st, stepMsg(g.msg("resp", p)))
+	}
+	st = append(st, stepMsg(g.msg("init", q)), stepShift(p, 6000), Step{Op: "remove_race", Peer: p})
+	good := g.msg("resp", p)
+	good.Src = 1 + g.r.Intn(4)
+	st = append(st, stepMsg(good), stepMsg(replayOf(g, good, 3)))
+	for i := 0; i < 3; i++ {
+		m := g.msg("resp", p)
+		m.Muts = []Mut{{"receiver_issued", int64(i)}}
+		m.Remac = true
+		st = append(st, stepMsg(m))
+	}
+	st = append(st, stepMsg(g.msg("init", p)), stepTun(p, 60), stepShift(q, 1000), stepMsg(g.msg("init", q)))
+	return Scenario{Gen: "removal-race", Steps: st}
+}
+
 func f7Scenario(aligned bool) Scenario {
 	st := []Step{stepTun(keyA, 80), {Op: "restart"}, stepTun(keyA, 80)}
 	if aligned {
@@ -1316,6 +1383,7 @@ func generate(seed int64, n int, tier string, f7rounds int) []Scenario {
 		(*gen).underLoad, (*gen).underLoad, (*gen).restartReplay, (*gen).restartReplay,
 		(*gen).rapidFire, (*gen).rapidFire, (*gen).rapidFire, (*gen).rapidFire,
 		(*gen).rapidFireAcrossRestart, (*gen).rapidFireAcrossRestart, (*gen).rapidFireAcrossRestart, (*gen).rapidFireAcrossRestart,
+		(*gen).removalRace, (*gen).removalRace, (*gen).removalRace, (*gen).removalRace,
 		(*gen).sessionIndex, (*gen).sessionIndex, (*gen).sessionIndex, (*gen).bursts, (*gen).bursts, (*gen).bursts, (*gen).bursts}
 	for _, f := range fixed {
 		scs = append(scs, f(mk()))
